@@ -1305,10 +1305,13 @@ class ExecutionTracer(AbstractExecutionTracer):  # noqa: PLR0904
 
         self.init_trace()
         self._current_thread_identifier: int | None = None
+        # Guards the ownership of the tracer, i.e., `_current_thread_identifier`.
+        self._ownership_lock = threading.Lock()
         self._current_code_object_id = 0
 
     def __enter__(self) -> Self:
-        self._current_thread_identifier = threading.current_thread().ident
+        with self._ownership_lock:
+            self._current_thread_identifier = threading.current_thread().ident
         return self
 
     def __exit__(
@@ -1318,9 +1321,11 @@ class ExecutionTracer(AbstractExecutionTracer):  # noqa: PLR0904
         traceback: TracebackType | None,
     ) -> None:
         # An abandoned (timed-out) thread that unwinds later must not stop the tracer
-        # of the test case that is executing in the meantime.
-        if self._current_thread_identifier == threading.current_thread().ident:
-            self.stop()
+        # of the test case that is executing in the meantime.  Compare and release in
+        # one step: the thread may be preempted (and abandoned) between the two.
+        with self._ownership_lock:
+            if self._current_thread_identifier == threading.current_thread().ident:
+                self._current_thread_identifier = None
 
     def check(self) -> None:  # noqa: D102
         if threading.current_thread().ident != self._current_thread_identifier:
@@ -1359,6 +1364,7 @@ class ExecutionTracer(AbstractExecutionTracer):  # noqa: PLR0904
         """
         self._import_trace = state["import_trace"]
         self._current_thread_identifier = state["current_thread_identifier"]
+        self._ownership_lock = threading.Lock()
         self._thread_local_state = ExecutionTracer.TracerLocalState()
         self._thread_local_state.enabled = state["thread_local_state"]["enabled"]
         self._thread_local_state.trace = state["thread_local_state"]["trace"]
@@ -1386,7 +1392,8 @@ class ExecutionTracer(AbstractExecutionTracer):  # noqa: PLR0904
         self._thread_local_state.enabled = False
 
     def stop(self) -> None:  # noqa: D102
-        self._current_thread_identifier = None
+        with self._ownership_lock:
+            self._current_thread_identifier = None
 
     def get_trace(self) -> ExecutionTrace:  # noqa: D102
         return self._thread_local_state.trace
